@@ -1,5 +1,6 @@
 import Irismod.Props.Tie_Coinswap
 open Irismod.Props.Tie Irismod.Gen.PureCoinswap Irismod.Sdk
+#print axioms coinswap_effects_pinned
 #print axioms coinswap_guards_pinned
 #print axioms coinswap_all_translated
 #print axioms coinswap_translated_pinned
